@@ -54,6 +54,10 @@ SweepClauses(r) ==
                   \cup (IF late /\ r.outcome # "timeout" THEN {"C19.wrong_outcome"} ELSE {})
                   \cup (IF r.outcome \in {okOutcome, "timeout"} THEN {} ELSE {"C19.wrong_outcome"}))
        \cup (IF r.kind = "nested" /\ r.outcome \notin {"value", "timeout"} THEN {"C19.wrong_outcome"} ELSE {})
+       \* a nested call enforces its OWN limit: the function certainly overruns the inner limit and the outer one is far away
+       \cup (IF r.kind = "nested" /\ r.dur_ms > 2 * r.inner_ms + 100 /\ r.limit_ms > 2 * r.dur_ms
+                /\ (r.outcome # "timeout" \/ r.elapsed_ms > r.dur_ms - 50)
+             THEN {"C19.nested_call_ignores_its_own_limit"} ELSE {})
 
 Clauses(r) == IF r.rkind = "schedule" THEN ScheduleClauses(r) ELSE SweepClauses(r)
 
